@@ -24,6 +24,10 @@ class Run:
         self.events = events
         self.prefix = prefix
         self.case = case
+        if len(events) == 1 and events[0].startswith('t') and (prefix + 'EV') in obs:
+            # stream consumed inside a tokio runtime: the harness wrote what happened as events
+            ev_s = obs[prefix + 'EV'].strip()
+            self.events = events = [] if ev_s in ('-', '') else ev_s.split()
         self.ev = []                # per event: tokens of the e<k> line
         k = 0
         while (prefix + 'e%d' % k) in obs:
@@ -306,11 +310,12 @@ def mon_c06(c, r):
 
 
 def mon_c06_edges(c):
-    user = [tuple(e) for e in c.ref.edges]
-    if c.G[:len(user)] != user:
+    user = sorted(tuple(e) for e in c.ref.edges)
+    kept = sorted(x for x in c.G if x[2] != 'D')
+    if kept != user:       # the order of the edge list is not part of the property
         return 'user edges changed in the built graph'
-    for (a, b, k) in c.G[len(user):]:
-        if k != 'D' or not rb.conflict(c.ref.nodes[a], c.ref.nodes[b]):
+    for (a, b, k) in c.G:
+        if k == 'D' and not rb.conflict(c.ref.nodes[a], c.ref.nodes[b]):
             return 'built graph has an extra edge %d-%d%s not joining conflicting functions' % (a, b, k)
     return None
 
